@@ -97,9 +97,23 @@ func Assume(c bool) {
 	}
 }
 func Assert(c bool, label string) {
-	if !c {
+	if !c && wantLabel(label) {
 		panic(assertFail{label})
 	}
+}
+
+// wantLabel: "C01,C07:name" restricts an assertion to the named properties (same rule as the engine).
+func wantLabel(label string) bool {
+	i := strings.Index(label, ":")
+	if i <= 0 || label[0] != 'C' || cur.Property == "" || cur.Property == "C00" {
+		return true
+	}
+	for _, p := range strings.Split(label[:i], ",") {
+		if p == cur.Property {
+			return true
+		}
+	}
+	return false
 }
 func Ite(c bool, a, b int) int {
 	if c {
